@@ -214,7 +214,7 @@ pub struct RunReport {
 // ------------------------------------------------------------------------------------------
 // Panic capture
 
-#[derive(Clone, Debug)]
+#[derive(Clone, Debug, PartialEq)]
 pub struct PanicInfo {
     pub message: String,
     pub location: String,
